@@ -41,12 +41,69 @@ pub struct MAnim<S: Shape> {
     pub values: S,
     pub t: Duration,
     pub pause: Option<(usize, Duration)>,
+    /// How the time in the current state was delivered: `exact` = every advance since the state was entered
+    /// (including those before a pause that was resumed) was a multiple of 1/512 s and the sum is below 2^15 s,
+    /// so nanosecond accumulation, the f32 reading of it and the real-number sum all coincide. Otherwise the
+    /// time an implementation hands to the timeline is only determined up to float rounding: `t_true` is the
+    /// real-number sum of the advances and `n_adv` their number (one nanosecond of conversion slack each).
+    pub clock: Clock,
+    pub paused_clock: Option<Clock>,
     pub twins: Vec<Option<MergedTimeline<S::Tl>>>,
     /// what the last set_state did (for coverage signatures)
     pub last_transition: &'static str,
 }
 
+#[derive(Clone, Copy, Debug, PartialEq)]
+pub struct Clock {
+    pub exact: bool,
+    pub t_true: f64,
+    pub n_adv: u32,
+}
+impl Clock {
+    pub const ZERO: Clock = Clock { exact: true, t_true: 0.0, n_adv: 0 };
+    fn add(&mut self, dt: f32) {
+        self.n_adv += 1;
+        self.t_true += dt as f64;
+        if !((dt as f64 * 512.0).fract() == 0.0 && self.t_true < 32768.0) {
+            self.exact = false;
+        }
+    }
+}
+
 impl<S: Shape> MAnim<S> {
+    /// The f32 times an implementation may legitimately hand to the timeline for the time spent in the current
+    /// state: exactly one when the clock is exact, otherwise every f32 within float rounding (2 ulp plus one
+    /// nanosecond per advance) of the nanosecond-accumulated and of the real-number time.
+    pub fn candidate_times(&self) -> Vec<f32> {
+        let tm = self.t.as_secs_f32();
+        if self.clock.exact {
+            return vec![tm];
+        }
+        let tt = self.clock.t_true as f32;
+        let slack = (self.clock.n_adv as f64 * 1.0e-9) as f32;
+        let (mut lo, mut hi) = (tm.min(tt) - slack, tm.max(tt) + slack);
+        for _ in 0..2 {
+            lo = crate::util::next_down(lo);
+            hi = crate::util::next_up(hi);
+        }
+        let mut out = vec![tm];
+        let mut x = lo.max(0.0);
+        while x <= hi && out.len() < 96 {
+            if x != tm {
+                out.push(x);
+            }
+            x = crate::util::next_up(x);
+        }
+        out
+    }
+    /// Values of the current state's twin timeline at time `t`, starting from the model's current values.
+    pub fn values_at(&self, t: f32) -> S {
+        let mut v = self.values.clone();
+        if let Some(tw) = &self.twins[self.state] {
+            tw.update(&mut v, t);
+        }
+        v
+    }
     pub fn new(spec: &AnimSpec) -> Self {
         let values = match &spec.initial_values {
             Some(v) => S::from_vals(v),
@@ -58,7 +115,7 @@ impl<S: Shape> MAnim<S> {
         if let Some(t) = twins[spec.initial_state].as_mut() {
             t.start_with(&values);
         }
-        MAnim { spec: spec.clone(), state: spec.initial_state, values, t: Duration::ZERO, pause: None, twins, last_transition: "init" }
+        MAnim { spec: spec.clone(), state: spec.initial_state, values, t: Duration::ZERO, pause: None, clock: Clock::ZERO, paused_clock: None, twins, last_transition: "init" }
     }
     fn eval(&mut self) {
         if let Some(t) = &self.twins[self.state] {
@@ -67,6 +124,7 @@ impl<S: Shape> MAnim<S> {
     }
     pub fn advance(&mut self, dt: f32) {
         self.t += Duration::from_secs_f32(dt);
+        self.clock.add(dt);
         self.eval();
     }
     pub fn set_state(&mut self, s: usize) {
@@ -79,6 +137,7 @@ impl<S: Shape> MAnim<S> {
                 // resume exactly where it was frozen; no re-blend
                 self.t = tp;
                 self.pause = None;
+                self.clock = self.paused_clock.take().unwrap_or(Clock::ZERO);
                 self.state = s;
                 self.last_transition = "resume";
                 self.eval();
@@ -89,11 +148,13 @@ impl<S: Shape> MAnim<S> {
         let will = self.twins[s].is_some();
         if was && !will {
             self.pause = Some((self.state, self.t));
+            self.paused_clock = Some(self.clock);
             self.last_transition = "pause";
         } else if will {
             // entering any other animated state discards the remembered position
             self.last_transition = if self.pause.is_some() { "blend-discarding-pause" } else { "blend" };
             self.pause = None;
+            self.paused_clock = None;
         } else {
             self.last_transition = "idle-to-idle";
         }
@@ -106,6 +167,7 @@ impl<S: Shape> MAnim<S> {
             self.twins[s] = Some(fresh);
         }
         self.t = Duration::ZERO;
+        self.clock = Clock::ZERO;
         self.state = s;
         self.eval();
     }
@@ -125,15 +187,18 @@ impl<S: Shape> MAnim<S> {
             Some(total) => (self.t.as_secs_f32() as f64) >= total,
         }
     }
-    /// is the end test within one ulp of the boundary (off-grid configurations)?
+    /// is the end test within float rounding of the boundary? (off-grid configurations, or a time in state that
+    /// was delivered in steps whose sum is not exact)
     pub fn ended_in_band(&self) -> bool {
         match self.total() {
             Some(total) if total.is_finite() => {
                 let t = self.t.as_secs_f32();
                 // landing exactly on the total demands the exact answer only where the f32 arithmetic of
                 // `delay + cycle x (repeats+1)` is itself exact (e.g. cycle x 3 may round, and the reported
-                // total is then one ulp off the exact one)
-                (t as f64 - total).abs() <= 2.0 * ulp32(total as f32) as f64 && (t as f64 != total || !self.spec.total_is_exact_in_f32(self.state))
+                // total is then one ulp off the exact one) and the time itself is exact
+                let slack = 2.0 * ulp32(total as f32) as f64 + self.clock.n_adv as f64 * 1.0e-9;
+                let near = (t as f64 - total).abs() <= slack || (!self.clock.exact && (self.clock.t_true - total).abs() <= slack);
+                near && (!self.clock.exact || t as f64 != total || !self.spec.total_is_exact_in_f32(self.state))
             }
             _ => false,
         }
